@@ -175,3 +175,28 @@ def browser_family(rep, n_cases, n_ops, known_classes=(), nproc=16):
     cov["distinct_nontrivial"] = cov.get("distinct_nontrivial", 0) + len(hashes)
     cov.setdefault("families", {})["c19-engines"] = tot
     return tot
+
+
+LONG_STORY = ":: Start\n~ n = 0\nBegin\n+ [step] -> Loop\n\n:: Loop\n~ n = n + 1\nStep {n}\n+ [again] -> Loop\n* [once {n}] -> Loop\n"
+
+
+def long_history_probe(rep):
+    """histories longer than the undo limit, with loads in between: the two engines forget the same steps
+    (fixed sessions: the generated ones are far shorter than the limit of 50)"""
+    story = corr_play.compile_source(LONG_STORY)
+    ch = lambda i=0: {"op": "choose", "i": i}  # noqa
+    sessions = {
+        "load, 55 choices, 53 undos": [ch()] * 3 + [{"op": "save"}, {"op": "load", "slot": 0}] + [ch()] * 55 + [{"op": "undo"}, {"op": "can_undo"}] * 53 + [{"op": "redo"}] * 3,
+        "60 choices, 55 undos, 55 redos": [ch()] * 60 + [{"op": "undo"}] * 55 + [{"op": "can_undo"}, {"op": "can_redo"}] + [{"op": "redo"}, {"op": "can_redo"}] * 55,
+        "fresh load, 52 choices, undo to the end": [ch()] * 2 + [{"op": "save"}, ch(), {"op": "fresh_load", "slot": 0}] + [ch(), ch(1)] * 26 + [{"op": "undo"}] * 54 + [{"op": "can_undo"}],
+        "two loads": [ch()] * 30 + [{"op": "save"}] + [ch()] * 30 + [{"op": "load", "slot": 0}] + [ch()] * 51 + [{"op": "load", "slot": 0}] + [ch()] * 51 + [{"op": "undo"}, {"op": "can_undo"}] * 52,
+    }
+    n = 0
+    for name, ops in sessions.items():
+        case = {"story": story, "ops": ops, "real": real_play.play(story, ops, "main")}
+        n += 1
+        for f in compare_engines(case):
+            f.update({"family": "c19-long-history", "id": name, "source": LONG_STORY, "ops": ops, "what": f"session '{name}': " + f["what"]})
+            rep.violations.append(f)
+    rep.coverage.setdefault("families", {})["c19-long-history"] = {"cases": n, "calls": sum(len(o) for o in sessions.values())}
+    rep.coverage["evaluations"] = rep.coverage.get("evaluations", 0) + n
